@@ -259,6 +259,23 @@ func (d *dialer) dial(addr ma.Multiaddr, p peer.ID, attempts int) (bool, string)
 	return false, last
 }
 
+// chainLeafConfusion: the verifier refuses entry 0 on its own but accepts it when a good pinned entry
+// follows, i.e. it judges the last entry instead of the served one.
+func chainLeafConfusion(served []*genCert, addr []hashSpec) bool {
+	if len(served) < 2 {
+		return false
+	}
+	var list []multihash.DecodedMultihash
+	for _, h := range addr {
+		list = append(list, mh(h.code, h.digest))
+	}
+	var raws [][]byte
+	for _, g := range served {
+		raws = append(raws, g.raw)
+	}
+	return !callVerifier(raws[:1], list).accepted && callVerifier(raws, list).accepted
+}
+
 type dialCase struct {
 	name    string
 	addr    []hashSpec // certhashes of the dialed address
@@ -333,13 +350,13 @@ func dialCases(r *run.R) {
 		switch {
 		case completed && !pinnedOK:
 			sig := "dial:completed-served-certificate-not-pinned"
-			if len(served) > 1 && containsSpec(dc.addr, sha(served[len(served)-1].raw)) {
+			if chainLeafConfusion(served, dc.addr) {
 				sig = "verify:chain-leaf-is-last-not-first"
 			}
 			r.Violation(sig, caseID, "dial completed although the SHA-256 of the served certificate is not in the dialed address", detail)
 		case completed && rule != "":
 			sig := "dial:completed-invalid-certificate:" + rule
-			if len(served) > 1 && served[len(served)-1].brokenRule() == "" {
+			if chainLeafConfusion(served, dc.addr) {
 				sig = "verify:chain-leaf-is-last-not-first"
 			}
 			r.Violation(sig, caseID, "dial completed although the served certificate breaks rule "+rule, detail)
